@@ -64,27 +64,3 @@ Lemma nr_do_tick ex h0 h secs : NR ex h0 h -> nres ex h0 (do_tick h secs).
 Proof. intros B. unfold do_tick. ngo. Qed.
 #[export] Hint Resolve nr_do_tick : nrdb.
 
-(* the table of virtual sessions names virtual sessions (Hub_wf.wf_vt) *)
-Definition vt_ok (h : hub) : Prop :=
-  forall p v vs, pget (h_vtable h) (p, v) = Some vs -> exists t, get_sess h vs = Some t /\ s_kind t = KVirtual p v.
-
-Lemma wf_vt_ok h : WF h -> vt_ok h.
-Proof. intros W p v vs Hv. exact (wf_vt _ _ h W p v vs Hv). Qed.
-
-Lemma nr_do_internal_vt ex h0 h c sid s q :
-  vt_ok h -> get_sess h sid = Some s -> NR ex h0 h -> nres ex h0 (do_internal h c sid s q).
-Proof.
-  intros Hvt Hs B. unfold do_internal. destruct q.
-  - destruct (room_of h (s_backend s, room)) as [r|] eqn:Hr; [|nleaf].
-    cbv zeta. set (vs := next_id h).
-    match goal with |- context [put_sess ?a ?b ?c] => assert (B1 : NR ex h0 (put_sess a b c)) end.
-    { apply nr_put_gen; [|right; right; split; reflexivity].
-      eapply nr_pset; [apply nr_nextsid; [exact B|apply N.lt_le_incl, next_id_gt]|exact Hr|reflexivity]. }
-    match goal with |- nres _ _ (let '(h10, outs10) := match ?prev with Some pv => close_one ?h9 pv | None => _ end in _) =>
-      set (h9' := h9); assert (B9 : NR ex h0 h9') by (unfold h9'; nrs) end.
-    Show.
-    admit.
-  - ngo.
-  - ngo. Show.
-  - ngo.
-Qed.
